@@ -167,6 +167,8 @@ def val(x):
     return val(x.unbox())
   if hasattr(x, 'dtype'):
     a = np.asarray(x)
+    if a.dtype.kind == 'f':
+      a = a + a.dtype.type(0)  # -0.0 and +0.0 are the same value (sign of zero may differ between execution paths)
     return ('arr', str(a.dtype), a.shape, a.tobytes())
   return ('v', repr(x))
 
